@@ -100,7 +100,9 @@ theorem climb_textIds (A : CAtoms) : ∀ (anc : List Shell) (r : Node), (climb A
     · rfl
     · split
       · rfl
-      · rw [climb_textIds A rest, wrap_textIds]
+      · split
+        · rfl
+        · rw [climb_textIds A rest, wrap_textIds]
 
 mutual
 theorem absNode_textIds' (abs absSet : String → String) : (m : Node) → (absNode abs absSet m).textIds = m.textIds
